@@ -34,15 +34,17 @@ type frtOpResp struct {
 }
 
 type frtOpSc struct {
-	K        int           `json:"k"`
-	Key      int           `json:"key"`
-	Peers    []crawledPeer `json:"peers"`
-	Resp     []frtOpResp   `json:"resp"`
-	Op       string        `json:"op"` // findpeer getvalue searchvalue findprovasync putvalue provide providemany putmany
-	Quorum   int           `json:"quorum,omitempty"`
-	Count    int           `json:"count,omitempty"`
-	CancelMs int           `json:"cancel_ms,omitempty"`
-	Target   int           `json:"target,omitempty"` // findpeer: index into peers, or beyond = unknown peer
+	K          int           `json:"k"`
+	Key        int           `json:"key"`
+	Peers      []crawledPeer `json:"peers"`
+	Resp       []frtOpResp   `json:"resp"`
+	Op         string        `json:"op"` // findpeer getvalue searchvalue findprovasync putvalue provide providemany putmany
+	Quorum     int           `json:"quorum,omitempty"`
+	Count      int           `json:"count,omitempty"`
+	CancelMs   int           `json:"cancel_ms,omitempty"`
+	Target     int           `json:"target,omitempty"`       // findpeer: index into peers, or beyond = unknown peer
+	Abandon    bool          `json:"abandon,omitempty"`      // channel operations: the consumer stops reading the moment it cancels
+	SlowReadMs int           `json:"slow_read_ms,omitempty"` // channel operations: the consumer pauses this long after every value it reads (the producer is then usually blocked handing over the next one)
 }
 
 func TestVerif_C03_FullRT(t *testing.T) {
@@ -50,7 +52,7 @@ func TestVerif_C03_FullRT(t *testing.T) {
 		Property: "C03", Part: "fullrt",
 		Rule: "rapid: operation in {FindPeer, GetValue, SearchValue (quorum 0/1/2/16), FindProvidersAsync (count 0/1/2/5), PutValue, Provide, ProvideMany, PutMany} on an accelerated client over a crawl of 1-30 peers (K 1-8) whose " +
 			"responders answer after 1-12000 ms, fail or stay silent (mixes: healthy, mixed, all failing, all silent) x cancellation instant (never, uniform 1-20000 ms); under synctest: the call returns within 1 s of virtual time after the last " +
-			"contacted peer answered/failed/timed out or after the client's own per-operation timeout, whichever is first, and within 1 s of a cancellation; channels are drained to closure; no panic; 10 min after the return plus Close no goroutine " +
+			"contacted peer answered/failed/timed out or after the client's own per-operation timeout, whichever is first, and within 1 s of a cancellation; channels are drained to closure (or abandoned by the consumer the moment it cancels); no panic; 10 min after the return plus Close no goroutine " +
 			"of the bubble is alive; non-trivial = a failing or silent peer among the responders, or a cancellation that landed inside the operation",
 		Gen: func(t *rapid.T) frtOpSc {
 			sc := frtOpSc{K: rapid.SampledFrom([]int{1, 2, 3, 4, 6, 8}).Draw(t, "k"), Key: rapid.IntRange(0, 50).Draw(t, "key")}
@@ -77,6 +79,8 @@ func TestVerif_C03_FullRT(t *testing.T) {
 				sc.CancelMs = rapid.IntRange(1, 20000).Draw(t, "cancelMs")
 			}
 			sc.Target = rapid.IntRange(0, 35).Draw(t, "target")
+			sc.Abandon = sc.CancelMs > 0 && rapid.Bool().Draw(t, "abandon")
+			sc.SlowReadMs = rapid.SampledFrom([]int{0, 0, 40, 700}).Draw(t, "slowRead")
 			return sc
 		},
 		Run: func(t *testing.T, sc frtOpSc) (res verifsim.Result) {
@@ -139,6 +143,10 @@ func TestVerif_C03_FullRT(t *testing.T) {
 				time.Sleep(time.Second)
 				ctx, cancel := context.WithCancel(context.Background())
 				defer cancel()
+				var abandon <-chan struct{} // nil: the consumer reads until the channel is closed
+				if sc.Abandon {
+					abandon = ctx.Done()
+				}
 				done := make(chan struct{})
 				started = sim.Now()
 				go func() {
@@ -164,11 +172,44 @@ func TestVerif_C03_FullRT(t *testing.T) {
 						ch, err := d.SearchValue(ctx, vkey, kaddht.Quorum(sc.Quorum))
 						opErr = err
 						if err == nil {
-							for range ch {
+						readV:
+							for {
+								select {
+								case _, ok := <-ch:
+									if !ok {
+										break readV
+									}
+									if sc.SlowReadMs > 0 {
+										select {
+										case <-time.After(time.Duration(sc.SlowReadMs) * time.Millisecond):
+										case <-abandon:
+											break readV
+										}
+									}
+								case <-abandon:
+									break readV
+								}
 							}
 						}
 					case "findprovasync":
-						for range d.FindProvidersAsync(ctx, c, sc.Count) {
+						pch := d.FindProvidersAsync(ctx, c, sc.Count)
+					readP:
+						for {
+							select {
+							case _, ok := <-pch:
+								if !ok {
+									break readP
+								}
+								if sc.SlowReadMs > 0 {
+									select {
+									case <-time.After(time.Duration(sc.SlowReadMs) * time.Millisecond):
+									case <-abandon:
+										break readP
+									}
+								}
+							case <-abandon:
+								break readP
+							}
 						}
 					case "putvalue":
 						opErr = d.PutValue(ctx, vkey, []byte(fmt.Sprintf("3|k%d|p", sc.Key)))
@@ -230,10 +271,10 @@ func TestVerif_C03_FullRT(t *testing.T) {
 				res.Fail("terminates", "C03/fullrt/"+op+"/hang", "%s did not return within 3 h of virtual time (started %v, cancelled %v)", op, started, cancelled)
 			default:
 				if cancelled > 0 {
-					if returned-cancelled > time.Second {
+					if returned-cancelled > time.Second+3*time.Duration(sc.SlowReadMs)*time.Millisecond { // (a pausing consumer may be in a pause, and reads what was already handed over)
 						res.Fail("cancellation-prompt", "C03/fullrt/"+op+"/slow-cancel", "%s returned %v after its context was cancelled", op, returned-cancelled)
 					}
-				} else {
+				} else if sc.SlowReadMs == 0 { // (with a pausing consumer the call's duration is the consumer's own)
 					// bounded: the last contacted peer's answer/failure/timeout, or the client's own per-operation timeout(s), whichever is first
 					last := max(lastEnd, started)
 					limit := last + time.Second
